@@ -119,9 +119,29 @@ struct FilterFn {
 #endif
 };
 
+// the queue object lives in explicit storage so that a copy / move can be constructed over memory that
+// previously held arbitrary bytes (C10 / C20: no result may depend on what the storage held before)
+struct QueueBox {
+	alignas(Queue) unsigned char storage[2][sizeof(Queue)];
+	int cur = 0;
+	Queue * p;
+	QueueBox() { std::memset(storage, 0, sizeof(storage)); p = new (storage[0]) Queue(); }
+	~QueueBox() { p->~Queue(); }
+	Queue & get() { return *p; }
+	// replace the queue by a copy (or move) of itself constructed in storage filled with `fill`
+	void rebuild(bool move, int fill) {
+		int o = 1 - cur;
+		std::memset(storage[o], fill, sizeof(Queue));
+		Queue * n = move ? new (storage[o]) Queue(std::move(*p)) : new (storage[o]) Queue(*p);
+		p->~Queue();
+		p = n; cur = o;
+	}
+};
+
+#define q (*box.p)
 struct World {
 	const Script * script;
-	Queue q;
+	QueueBox box;
 	int nkeys;
 	std::vector<Queue::Handle> handles;               // listener handles by id (filters use fhandles)
 	std::map<long, Queue::FilterHandle> fhandles;
@@ -131,7 +151,7 @@ struct World {
 	std::vector<std::string> out;
 	std::vector<long> dispatchKeyStack;               // key of the dispatch currently running (for key integrity)
 
-	explicit World(const Script & s) : script(&s), nkeys(s.nlists) {
+	explicit World(const Script & s) : script(&s), box(), nkeys(s.nlists) {
 		for(auto & l : s.cfg) {
 			auto t = toks(l);
 			if(t.size() >= 4 && t[1] == "rw") rw[std::atol(t[2].c_str())] = std::atol(t[3].c_str());
@@ -231,6 +251,32 @@ struct World {
 			else res("false");
 		}
 		else if(op == "clear") { q.clearEvents(); res("unit"); }
+		else if(op == "qcopy" || op == "qmove") {
+			// replace the queue by a copy / move of itself built over storage filled with the given byte;
+			// pending events are not copied; listeners and filters are, as new nodes: they get fresh ids in
+			// (event, list) order, filters last
+			bool mv = op == "qmove";
+			box.rebuild(mv, (int)c.n(1));
+			if(!mv) {
+				handles.clear(); fhandles.clear();
+				long base = nextId;
+				std::vector<Queue::Handle> nh;
+				for(int k = 0; k < nkeys; ++k) {
+					q.forEach(mkKey(k), [&](const Queue::Handle & h, Queue::Callback & cb) {
+						CbFn * fn = cb.target<CbFn>();
+						fn->hid = nextId++;
+						nh.push_back(h);
+					});
+				}
+				handles.resize(base); for(auto & h : nh) handles.push_back(h);
+				q.filterList.forEach([&](const decltype(q.filterList)::Handle & h, decltype(q.filterList)::Callback & cb) {
+					FilterFn * fn = cb.target<FilterFn>();
+					fn->hid = nextId++;
+					fhandles[fn->hid] = h;
+				});
+			}
+			res("unit");
+		}
 		else if(op == "emptyq") res(q.emptyQueue() ? "true" : "false");
 		else out.push_back("bad-op " + op);
 	}
@@ -269,6 +315,7 @@ struct World {
 	}
 };
 
+#undef q
 void CbFn::operator()(LARGS) const {
 #if VH_INCLUDE
 	if(keyNum(k) != key) g_world->out.push_back("keymismatch listener-of " + std::to_string(key) + " got " + std::to_string(keyNum(k)));
